@@ -308,6 +308,36 @@ type c15Step struct {
 	Mode string
 	Beh  map[int]*c15Beh
 	Down bool
+	// OpenFault, if not nil, is a list whose refresh fails in this step and
+	// whose stored file cannot be opened while the step runs.
+	OpenFault *c15ListM
+}
+
+// c15MakeUnopenable makes open(2) of path fail with ELOOP without ever leaving
+// the path missing (a missing file legitimately means "no rules"): the file is
+// hard-linked aside, a symlink pointing to itself is created under a temporary
+// name and renamed over the path.  restore renames the hard link back, so the
+// path holds the same inode as before.
+func c15MakeUnopenable(path string) (restore func() error, err error) {
+	aside, tmp := path+".c15-aside", path+".c15-loop"
+	_ = os.Remove(aside)
+	_ = os.Remove(tmp)
+	if err = os.Link(path, aside); err != nil {
+		return nil, err
+	}
+	if err = os.Symlink(filepath.Base(path), tmp); err != nil {
+		_ = os.Remove(aside)
+
+		return nil, err
+	}
+	if err = os.Rename(tmp, path); err != nil {
+		_ = os.Remove(aside)
+		_ = os.Remove(tmp)
+
+		return nil, err
+	}
+
+	return func() error { return os.Rename(aside, path) }, nil
 }
 
 // c15Env is shared by all sequences of a run.
@@ -761,10 +791,48 @@ func (q *c15Seq) step(si int) bool {
 
 		return false
 	}
+	// A mixed round - one list is going to be updated, so the engines are
+	// rebuilt, another one fails - may run with the failing list's stored
+	// file unopenable.
+	var restoreOpen func() error
+	if rng.Intn(2) == 0 {
+		var failing []*c15ListM
+		updating := false
+		for _, l := range q.lists {
+			b, bs := st.Beh[l.Idx], before.Lists[l.ID]
+			switch {
+			case b == nil:
+			case b.Level == c15MustFail && bs.Exists && bs.Count > 0 && l.GoodProbe != "":
+				failing = append(failing, l)
+			case b.Level == c15MustSucceed:
+				if nf, _ := c15Normalise(b.Text.Bytes, false, false, false); !bytes.Equal(nf, bs.Bytes) && len(nf) > 0 {
+					sum, _ := c15ProductSum(nf)
+					updating = updating || sum != bs.Sum
+				}
+			}
+		}
+		if updating && len(failing) > 0 {
+			l := failing[rng.Intn(len(failing))]
+			p := filepath.Join(q.dataDir, filterDir, strconv.Itoa(l.ID)+".txt")
+			if restoreOpen, err = c15MakeUnopenable(p); err != nil {
+				rep.Inconcl("cannot make a stored file unopenable: " + err.Error())
+
+				return false
+			}
+			st.OpenFault = l
+		}
+	}
 	if anyDown && !q.env.mem {
 		q.env.second.stop()
 	}
 	info := q.refresh(st.Mode)
+	if restoreOpen != nil {
+		if err = restoreOpen(); err != nil {
+			rep.Inconcl("cannot restore a stored file: " + err.Error())
+
+			return false
+		}
+	}
 	if anyDown && !q.env.mem {
 		if err = q.env.second.start(); err != nil {
 			rep.Event("second_server_port_lost")
@@ -784,6 +852,19 @@ func (q *c15Seq) step(si int) bool {
 
 	// History entry and witness.
 	hist := map[string]any{"step": si, "mode": st.Mode, "refresh": info}
+	// wholeOld: the step ran with an unopenable stored file and the engine
+	// objects are the ones from before - the rebuild failed as a whole.
+	wholeOld := false
+	if st.OpenFault != nil {
+		hist["stored_file_unopenable_during_the_step"] = fmt.Sprintf("list%d (open fails with ELOOP)", st.OpenFault.Idx)
+		rep.Event("steps_with_a_failing_list_whose_stored_file_cannot_be_opened")
+		wholeOld = before.Engines == after.Engines
+		if wholeOld {
+			rep.Event("open_fault:rebuild_failed_as_a_whole_and_old_engines_kept")
+		} else {
+			rep.Event("open_fault:engines_rebuilt")
+		}
+	}
 	for _, l := range q.lists {
 		if b := st.Beh[l.Idx]; b != nil {
 			hist[fmt.Sprintf("list%d", l.Idx)] = b.show()
@@ -912,7 +993,13 @@ func (q *c15Seq) step(si int) bool {
 			if bs.LastUpdated != as.LastUpdated {
 				rep.Unspec("last_updated-changed-by-failed-refresh")
 			}
-			if len(ud) > 0 {
+			if len(ud) == 1 && ud[0] == "decision-changed" && st.OpenFault == l {
+				resyncEngines = true
+				rep.Violate(st.Mode+":open-fault-at-rebuild:failed-list-dropped-from-engines",
+					fmt.Sprintf("the refresh of the list failed (%s) and its stored file could not be opened when the engines were rebuilt: file, count and checksum are unchanged, but its rules are no longer in force (%s: %s before, %s after)",
+						b.Kind, l.GoodProbe, before.Dec[l.GoodProbe], after.Dec[l.GoodProbe]),
+					witness(l, map[string]any{"differences": ud, "this_step": b.show()}))
+			} else if len(ud) > 0 {
 				resyncEngines = resyncEngines || c15Has(ud, "decision-changed")
 				rep.Violate(fmt.Sprintf("%s:failed:%s:%s:%s", st.Mode, src, c15KindClass(b), ud[0]),
 					fmt.Sprintf("a refresh that failed (%s) changed the list: %s", b.Kind, strings.Join(ud, ", ")),
@@ -920,6 +1007,9 @@ func (q *c15Seq) step(si int) bool {
 			} else {
 				rep.Class("outcome:failed-and-nothing-changed")
 				rep.Class("failed-and-nothing-changed:" + c15KindClass(b))
+				if st.OpenFault == l {
+					rep.Class("outcome:open-fault:failed-list-still-in-force")
+				}
 			}
 		case c15FailThenOK:
 			// The first response of the step failed, a later one is complete.
@@ -931,6 +1021,9 @@ func (q *c15Seq) step(si int) bool {
 				rep.Class("outcome:fail-then-ok:nothing-changed")
 			case len(diffs) == 0:
 				rep.Class("outcome:fail-then-ok:asked-again-and-stored-the-complete-content")
+			case wholeOld && c15ForceOnly(diffs) && !c15Has(ud, "decision-changed"):
+				resyncEngines = true
+				rep.Class("outcome:open-fault:stored-and-old-engines-kept-as-a-whole")
 			default:
 				resyncEngines = true
 				k := c15DiffKey(diffs)
@@ -953,6 +1046,11 @@ func (q *c15Seq) step(si int) bool {
 		case c15MustSucceed:
 			diffs, label := succeeded(forms[0])
 			switch {
+			case wholeOld && c15ForceOnly(diffs) && !c15Has(ud, "decision-changed"):
+				// Stored, and the rebuild failed as a whole: the old engines,
+				// this list's old rules included, are still in force.
+				resyncEngines = true
+				rep.Class("outcome:open-fault:stored-and-old-engines-kept-as-a-whole")
 			case len(diffs) > 0:
 				resyncEngines = resyncEngines || c15ForceOnly(diffs) || c15Has(diffs, "decision-changed")
 				rep.Violate(fmt.Sprintf("%s:succeeded:%s:%s", st.Mode, label, c15DiffKey(diffs)),
@@ -990,6 +1088,9 @@ func (q *c15Seq) step(si int) bool {
 			switch {
 			case okAs != "":
 				rep.Class("outcome:either:" + okAs)
+			case wholeOld && c15ForceOnly(best) && !c15Has(ud, "decision-changed"):
+				resyncEngines = true
+				rep.Class("outcome:open-fault:stored-and-old-engines-kept-as-a-whole")
 			case c15ForceOnly(best):
 				resyncEngines = true
 				rep.Violate(fmt.Sprintf("%s:succeeded:%s:%s", st.Mode, bestLabel, c15DiffKey(best)),
@@ -1011,7 +1112,7 @@ func (q *c15Seq) step(si int) bool {
 		// The rules in force disagree with the files: rebuild the engines, so
 		// that the next steps do not report the same disagreement again.
 		q.d.EnableFilters(false)
-		rep.Event("engines_rebuilt_by_monitor_after_violation")
+		rep.Event("engines_rebuilt_by_monitor_to_resynchronise")
 	}
 	for _, p := range q.env.script.drainUnscripted() {
 		rep.Event("unscripted_requests")
@@ -1490,6 +1591,9 @@ func TestVerifC15Refresh(t *testing.T) {
 			if rep.ClassCount(k) < need[k] {
 				rep.Inconcl(fmt.Sprintf("only %d observations of %q (need %d)", rep.ClassCount(k), k, need[k]))
 			}
+		}
+		if got := rep.EventCount("steps_with_a_failing_list_whose_stored_file_cannot_be_opened"); got < nSeq/10 {
+			rep.Inconcl(fmt.Sprintf("only %d mixed steps ran with the failing list's stored file unopenable", got))
 		}
 		if rep.EventCount("unscripted_requests") > 0 {
 			rep.Inconcl(fmt.Sprintf("%d requests reached the list server outside the script", rep.EventCount("unscripted_requests")))
